@@ -58,6 +58,12 @@ size_t alloc_live_blocks() { return g_live; }
 size_t alloc_live_bytes() { return g_live_bytes; }
 size_t alloc_peak_bytes() { return g_peak_bytes; }
 bool alloc_overflowed() { return g_overflow; }
+extern "C" void __asan_describe_address(void*) __attribute__((weak));
+void alloc_describe_live() {  // debugging aid: allocation stacks of the blocks still live (stderr)
+  int n = 0;
+  for (size_t i = 0; i < TAB && n < 8; i++)
+    if (g_tab[i].p && g_tab[i].p != (const volatile void*)1) { if (__asan_describe_address) __asan_describe_address((void*)g_tab[i].p); n++; }
+}
 std::string alloc_live_summary() {
   std::string r;
   int n = 0;
